@@ -12,7 +12,7 @@ VIEW_FNS = (
     "node::BinEntry::as_node", "node::BinEntry::as_tree_node", "node::BinEntry::as_tree_bin",
     "node::TreeNode::get_tree_node",
     "option::Option::unwrap", "option::Option::expect", "option::Option::as_ref", "option::Option::unwrap_unchecked",
-    "option::Option::as_deref", "option::Option::copied", "option::Option::cloned",
+    "option::Option::as_deref", "option::Option::copied", "option::Option::cloned", "option::Option::filter", "option::Option::inspect",
     "ops::Deref::deref", "borrow::Borrow::borrow", "convert::AsRef::as_ref", "clone::Clone::clone",
     "reclaim::GuardRef::deref", "ops::Try::branch", "try_trait::Try::branch", "sync::atomic::Atomic::into_inner", "sync::atomic::AtomicPtr::into_inner", "seize::Link::cast",
 )
